@@ -7,6 +7,7 @@ that the decoded values make the merged PE compute the kernel is behavioural and
 from __future__ import annotations
 
 import ast
+import re
 
 from sa import norm
 from sa.errors import AnalysisError
@@ -105,6 +106,25 @@ def valid_mapping_rule(repo: Repo, chk: Check) -> None:
             raise AnalysisError(f"{s.where()}: a position is accepted under conditions this rule does not read: {s.fact_texts[-3:]}")
         chk.result(bool(eq), "C20.valid-mapping", f"{f.key}:accept#{k_}", s.where(), "a position is accepted under equality with the followed abstract operand",
                    "a position is accepted under a disjunction, not under equality of its source and the followed abstract operand", s.fact_texts)
+    # no choose / yield of the concrete kernel is exempted from the comparison: the op loop around the pairing loop is left early (`continue`, `break`,
+    # an accepting return) for no operation that is a choose or the yield
+    outer = next((l for s in rejects for l in s.loops if isinstance(l, ast.For) and l is not lp and any(c is lp for c in ast.walk(l))), None)
+    if outer is None:
+        raise AnalysisError(f"{f.where}: the loop over the kernel's operations around the operand comparison was not found")
+    skips = [s for s in [*fl.stmts(ast.Continue), *fl.stmts(ast.Break), *fl.stmts(ast.Return)] if s.reachable and any(l is outer for l in s.loops) and not any(l is lp for l in s.loops)
+             and not (isinstance(s.node, ast.Return) and isinstance(s.node.value, ast.Constant) and s.node.value.value is False)]
+    j_ = 0
+    for s in skips:
+        j_ += 1
+        texts = [fa.text for alt in s.state.alts for fa in [*alt.facts.values(), *s.extra] if fa.kind == "atom"]
+        on_op = [t for t in texts if re.match(r"isinstance\(\w+, (phs\.)?(YieldOp|ChooseOp)\)$", t)]
+        if not on_op:
+            raise AnalysisError(f"{s.where()}: the loop over the kernel's operations is left early under conditions this rule does not read: {texts[-3:]}")
+        chk.bad("C20.valid-mapping", f"{f.key}:every-op#{j_}", s.where(),
+                f"under `{on_op[0]}` the operation is passed over (`{ast.unparse(s.node)}`) before its data operands are compared with the followed abstract operands: "
+                "a mux assignment that routes this operation differently is accepted, and the search returns the first such assignment", s.fact_texts)
+    if not skips:
+        chk.ok("C20.valid-mapping", f"{f.key}:every-op", f"{f.module.relpath}:{outer.lineno}", "every choose / yield of the kernel reaches the position-wise comparison")
 
 
 def region_operands(repo: Repo, chk: Check) -> None:
@@ -457,6 +477,19 @@ def merge(repo: Repo, chk: Check) -> None:
     key = f.key
     stores = [s for s in fl.stmts(ast.Assign) if s.reachable and isinstance(s.node.targets[0], ast.Subscript) and norm.match(T(f"{abst}.operands[$i]"), s.node.targets[0]) is not None]
     if not stores:
+        # a rerouting keyed by the VALUE of the conflicting operand (`v.replace_uses_with_if(new, pred)`, `replace_by*`) reaches every slot of the
+        # consumer that holds `v` (the same value in two slots, or also as the switch), not the conflicting slot alone - unless the predicate
+        # itself selects the slot by `use.index`, which this rule does not evaluate (analysis error)
+        by_value = [s for s in fl.calls("replace_uses_with_if", "replace_by_if", "replace_by", "replace_all_uses_with") if s.reachable]
+        for s in by_value:
+            slot = [a for a in ast.walk(s.node) if isinstance(a, ast.Attribute) and a.attr == "index"]
+            if slot:
+                raise AnalysisError(f"{s.where()}: rerouting by `{ast.unparse(s.node.func)}` with a predicate on `use.index`: not evaluated")
+            chk.bad("C20.merge", f"{key}:own-slot", s.where(),
+                    f"the conflicting operand is rerouted by value (`{ast.unparse(s.node)[:110]}`): every slot of the consumer that holds the same value is rerouted "
+                    "to the new mux, not the one slot whose routing conflicts (a kernel that feeds one value to two operands gets both behind the mux)", s.fact_texts)
+        if by_value:
+            return
         raise AnalysisError(f"{f.where}: rerouting store `{abst}.operands[i] = ...` not found")
     for s in stores:
         idx = s.node.targets[0].slice
